@@ -102,7 +102,7 @@ func (db *DB) listWithCursor(tx *bbolt.Tx, result []objectcore.AddressWithAttrib
 		cursor.containerID = containerID
 		bkt := tx.Bucket(name)
 		if bkt != nil {
-			result, cursor = selectNFromBucket(bkt, result, count, cursor, attrs...)
+			result, cursor = selectNFromBucket(bkt, result, count, cursor, db.epochState.CurrentEpoch(), attrs...)
 		}
 		if len(result) >= count {
 			break
@@ -122,6 +122,7 @@ func selectNFromBucket(bkt *bbolt.Bucket, // main bucket
 	to []objectcore.AddressWithAttributes, // listing result
 	limit int, // stop listing at `limit` items in result
 	cursor *Cursor, // start from cursor object
+	currEpoch uint64, // to tell live locks from expired ones
 	attrs ...string,
 ) ([]objectcore.AddressWithAttributes, *Cursor) {
 	var (
@@ -144,7 +145,8 @@ func selectNFromBucket(bkt *bbolt.Bucket, // main bucket
 
 		mCursor := bkt.Cursor()
 		cursor.lastObjectID = obj
-		if inGarbage(mCursor, obj) != statusAvailable {
+		// a locked object stays available whatever marks it has, see objectStatusDirect
+		if inGarbage(mCursor, obj) != statusAvailable && !objectLocked(currEpoch, mCursor, obj) {
 			continue
 		}
 
